@@ -306,6 +306,28 @@ func c19(c *Ctx) {
 		}
 	}
 	phones := [][]byte{{0x01, 0x38, 0x00, 0x13, 0x80, 0x00}, {0, 0, 0, 0, 0, 0}, {0xab, 0xcd, 0xef, 0x12, 0x34, 0x56}, {0, 0, 0, 0, 0, 1}}
+	// (0) the session of Props/C19_session.v C19_run_example2, byte for byte (its reads are these three writes): two
+	// announced files, the one whose name leaves the directory is complete, the plain one arrives in two chunks; the
+	// model's evaluated answer (exactly ./13800138000/a.jpg = WXYZ) is compared with the real handler's directory
+	{
+		good, evil := []byte("a.jpg"), []byte("../b")
+		f1 := Frame808(0x1210, false, phones[0], 7, Body1210(1, []byte("TERMINAL-ID"), 0, -1, []AttItem{{Name: good, Size: 4}, {Name: evil, Size: 2}}))
+		c1, c2, c3 := Chunk(1, good, 0, []byte("WX")), Chunk(1, evil, 0, []byte("!!")), Chunk(1, good, 2, []byte("YZ"))
+		f2 := Frame808(0x1212, false, phones[0], 8, Body1211(good, 0, 4))
+		all := append(append(append(append(append([]byte{}, f1...), c1...), c2...), c3...), f2...)
+		cut1, cut2 := len(f1)+10, len(f1)+len(c1)+len(c2)+3
+		segs := [][]byte{all[:cut1], all[cut1:cut2], all[cut2:]}
+		req := "c19" + AttRequest(1, segs)[3:]
+		o := session(1, func(string) [][]byte { return segs })
+		c.Case(req, canon(o), true)
+		c.Count("example2")
+		want := []string{"13800138000", filepath.Join("13800138000", "a.jpg")}
+		if o.panicked != "" || fmt.Sprint(o.created) != fmt.Sprint(want) || string(o.content[want[1]]) != "WXYZ" {
+			c.Violate(Violation{Signature: "C19/example2", What: "the session of C19_run_example2 on the real handler", Input: req,
+				Observed: fmt.Sprintf("panic=%q created=%q content=%q", o.panicked, o.created, o.content[want[1]]),
+				Required: fmt.Sprintf("created=%q content=\"WXYZ\"", want)})
+		}
+	}
 	phone19 := []byte{0, 0, 0, 0, 0x01, 0x38, 0x00, 0x13, 0x80, 0x00}
 	// (1) exhaustive: every name of length <= 3 over the alphabet, one name per session, and all of a
 	// length class in one session (records are a map: many names at once)
